@@ -185,6 +185,11 @@ int main (int argc, char **argv) {
 			if (__atomic_load_n (&finished, __ATOMIC_SEQ_CST) == NT && live () == base + 2 * NK) break;   /* NK wrappers + NK native-key blocks */
 			usleep (500);
 		}
+		/* a detached thread's handle can be gone (the library key's destructor ran) while the destructors of its other
+		 * keys are still to run — POSIX leaves their order open: too few calls is only final after a grace period, and the keys
+		 * must stay until then (deleting a native key cancels its pending destructors) */
+		for (int spin = 0; spin < 10000 && __atomic_load_n (&notif_calls, __ATOMIC_SEQ_CST) < __atomic_load_n (&notif_expected, __ATOMIC_SEQ_CST); spin++)
+			usleep (500);
 		for (int k = 0; k < NK; k++) p_uthread_local_free (keys[k]);
 		if (live () != base) {
 			fprintf (stderr, "round %d: allocator imbalance: %ld live blocks, expected %ld (after %d keys)\n",
